@@ -65,11 +65,12 @@ func checkModelFacts(c ExecCase) (*Violation, modelFacts) {
 	if verbose.Panic != "" || silent.Panic != "" {
 		return violf("Query(%q, %s) panicked: %s%s", c.Path, c.Doc, verbose.Panic, silent.Panic), f
 	}
-	if isD9(verbose.Err) || isD9(silent.Err) {
-		if mr.SawD9 && ev.quirk("datetime_vs_nondatetime_invalid") {
-			f.kf = "D9"
-			return nil, f
-		}
+	if mr.SawD9 && ev.quirk("datetime_vs_nondatetime_invalid") {
+		// the ErrInvalid of D9 may be swallowed by an enclosing "is unknown" or exists(),
+		// so the finding covers every case in which the rules compare a datetime with
+		// a non-datetime item, whether or not the error surfaced
+		f.kf = "D9"
+		return nil, f
 	}
 	if mr.UsedD19 {
 		f.kf = "D19"
